@@ -23,36 +23,54 @@ MANIFEST = {
             'REVERSE WORKFLOWS: model Mistral.Reverse = get_task_requires (task + task-defaults, minus self), the graph '
             'search from the target (needed set), _is_satisfied_task, _find_next_commands / continue_workflow, '
             'all_errors_handled, and the run as a transition system over rows + pending deliveries (start with the '
-            'inline completion check, dispatcher, run_task, executor, Task.complete, check_and_complete). Theorems '
+            'inline completion check, dispatcher, run_task, executor, Task.complete incl. the paused case, '
+            'check_and_complete, and the operator commands pause / resume / stop: Lifecycle.wfApply for the state, '
+            'Workflow.resume -> continue_workflow() -> _continue_workflow with RunExistingTask for IDLE rows, '
+            '_run_existing). Theorems '
             '(Mistral.Props.C04Rev) for ALL specs, targets and event histories: needed_iff_reach (the needed set is '
             'exactly the target and what it transitively requires), row_created_only_when_ready + '
             'requires_order_reachable (every task with an execution has every required task in SUCCESS; '
             'success_stays), only_needed_reachable, each_once_reachable (at most one execution per task), '
-            'inv_init / inv_step / inv_reachable; outcome: live_inv_reachable, quiescent_outcome_partial / '
-            'started_run_outcome (acyclic requires: with nothing pending the run is ERROR with a failed task or '
-            'SUCCESS with every needed task, the target included, succeeded; never left RUNNING), '
-            'quiescent_error_iff, and quiescent_outcome_full_fails + cyclic_requires_succeeds_without_target (the '
-            'validator accepts cyclic requires; such a run is SUCCESS without running its target: known finding). '
+            'inv_init / inv_step / inv_reachable (all of these over histories that may contain pause / resume / '
+            'stop anywhere); definition-time validation: checkIntegrity models '
+            '_check_workflow_integrity incl. _check_requires_cycles (layer-by-layer resolution), '
+            'accepted_wellformed_acyclic (accepted => every required task exists and requires has no cycle), '
+            'validator_rounds_suffice, cyclic_definition_rejected (regression of the fixed finding: cycles, also '
+            'through task-defaults requires, are rejected; a self-requirement is not); outcome: live_inv_reachable, '
+            'quiescent_outcome / started_run_outcome (FULL STRENGTH: for every ACCEPTED definition, target and '
+            'event history without operator commands, with nothing pending the run is ERROR with a failed task or SUCCESS with every needed '
+            'task, the target included, succeeded; never left RUNNING), quiescent_outcome_acyclic (same under an '
+            'explicit ranking), quiescent_error_iff, unvalidated_cycle_succeeds_without_target (what a cyclic '
+            'definition would do if run: why the validator must reject it). '
             'Ties: stream reverse-fn = the REAL ReverseWorkflowController (continue_workflow, '
             '_find_task_specs_with_satisfied_dependencies, graph search, all_errors_handled, get_task_requires) on '
-            'generated specs with synthetic rows in sqlite vs the model; stream reverse = the real engine under '
-            'random/fifo/lifo schedules vs Mistral.Reverse.step after EVERY event (workflow state, every task row, '
-            'multiset of pending deliveries) + statement monitors on the same traces (row created / task started only '
+            'generated specs with synthetic rows in sqlite vs the model; stream reverse-valid = the REAL semantic '
+            'validation of generated cyclic / acyclic / missing-requirement definitions vs checkIntegrity (verdict '
+            'class ok / task-not-found / requires-cycle); stream reverse = the real engine under '
+            'random/fifo/lifo schedules with operator commands (pause / resume / stop at random points) vs '
+            'Mistral.Reverse.step after EVERY event (workflow state, every task row, multiset of pending '
+            'deliveries, empty dispatcher backlog) + statement monitors on the same traces (row created / task started only '
             'with all requirements in SUCCESS, only needed tasks, one row and one action per task, final outcome).',
     'note': 'named-lock serialisation of Task.defer across processes is assumed; rows are listed in id order. '
-            'Reverse model: data flow (inbound context), policies/retries, pause/resume/stop/rerun are outside '
-            'Mistral.Reverse; command ORDER (a DFS post-order that depends on hash order) is not modelled, lists '
-            'denote sets; Acyclic is a hypothesis of the outcome theorem, not something the validator guarantees.',
+            'Reverse model: data flow (inbound context), policies/retries, rerun are outside Mistral.Reverse; the '
+            'outcome theorem is about histories without operator commands (a stopped run ends as told, a run left '
+            'paused does not end); the dispatcher backlog is not in the model (never filled by a reverse run: '
+            'checked by the stream); command ORDER (a DFS post-order that depends on hash order) is not modelled, lists '
+            'denote sets; definitions stored before the cycle check (or loaded with validate=False) are not '
+            're-validated at start: for those only quiescent_outcome_acyclic applies.',
 }
 RULE = ('stream join: generated direct-workflow graphs (forks, all/one/N joins, on-error/on-complete feeds, '
         'task-defaults, cycles, engine commands) x synthetic task-row sets; non-trivial = a join verdict '
         'computed from >=1 row; distinct = distinct (graph, rows, join); '
         'stream reverse-fn: generated reverse workflows (2-8 tasks, random requires DAGs in shuffled definition '
-        'order, diamonds / chains / wide, task-defaults requires, string and list forms, 20% with a cycle or a '
-        'self-requirement, unknown / missing target) x synthetic row sets (arbitrary states and duplicates, or a '
+        'order, diamonds / chains / wide, task-defaults requires, string and list forms, 25% with a cycle or a '
+        'self-requirement, 5% with a required name that is no task, unknown / missing target) x synthetic row sets (arbitrary states and duplicates, or a '
         'plausible snapshot of a run) x workflow state x with/without a task execution; non-trivial = rows present '
-        'or a RunTask command produced; stream reverse: the same generator (6% cyclic) x failing-task oracles x '
-        'random/fifo/lifo schedules on the real engine; non-trivial = >=2 task executions or a failing task; '
+        'or a RunTask command produced; stream reverse-valid: every generated definition of both reverse streams '
+        'through the real validator; non-trivial = cyclic, rejected or with a multi-requirement task; '
+        'stream reverse: the same generator (8% cyclic, rejected at creation) x failing-task oracles x '
+        'random/fifo/lifo schedules x operator commands (35% pause [+resume], 12% stop) on the real engine; '
+        'non-trivial = >=2 task executions, a failing task or an operator command; '
         'distinct = distinct (definition, target, oracle, policy, schedule seed)')
 LEAN_MODULES = ['Mistral.Props.C04', 'Mistral.Props.C04Rev']
 TRUSTED = ['translate/states.py (AST read of states.py)',
@@ -76,7 +94,9 @@ def correspond(ctx):
 
 def search(ctx):
     """join logic / engine model no longer matches: look for an engine-level violation of the statement"""
+    from harness import engine_stream
     from vlib import par
+    engine_stream.search_from_core(ctx, ['C04'], 'plain')
     par.run_parallel(ctx, 'harness.engine_stream', 'run_chunk',
                      [{'n_programs': 40, 'props': ['C04'], 'mode': 'plain',
                        'gen_kw': {'p_fail': 0.2, 'p_guard': 0.4}}] * 14)
